@@ -195,6 +195,37 @@ func (x *Exec) libStatic(st *State, f *Frame, callee *ssa.Function, c *ssa.CallC
 	case "(*sync.WaitGroup).Add", "(*sync.WaitGroup).Done", "(*sync.WaitGroup).Wait":
 		x.noteLib("sync.WaitGroup: no effect on modelled state (happens-before of Wait after Done is assumed)")
 		return nil, true
+	case "reflect.DeepEqual":
+		// two pointers to the same struct type whose fields are all scalars: field-wise equality of the pointees
+		a, ok1 := args[0].(IfaceV)
+		b, ok2 := args[1].(IfaceV)
+		if ok1 && ok2 {
+			ta, oka := isIntLit(a.Tag)
+			tb, okb := isIntLit(b.Tag)
+			if oka && okb && ta == tb && ta != 0 {
+				if pt, ok := reg.tagType(ta).(*types.Pointer); ok {
+					if stt, ok := pt.Elem().Underlying().(*types.Struct); ok {
+						scalar := true
+						for i := 0; i < stt.NumFields(); i++ {
+							if _, ok := stt.Field(i).Type().Underlying().(*types.Basic); !ok {
+								scalar = false
+							}
+						}
+						if scalar {
+							va := st.flatten(st.loadAt(ObjAddr{a.Pay, pt.Elem()}, pt.Elem()))
+							vb := st.flatten(st.loadAt(ObjAddr{b.Pay, pt.Elem()}, pt.Elem()))
+							var cs []Term
+							for i := range va {
+								cs = append(cs, Eq(va[i], vb[i]))
+							}
+							x.noteLib("reflect.DeepEqual on two *T with scalar fields: field-wise equality (both non-nil)")
+							return Sc{And(append(cs, Not(Eq(a.Pay, IntLit(0))), Not(Eq(b.Pay, IntLit(0))))...)}, true
+						}
+					}
+				}
+			}
+		}
+		return Sc{reg.freshConst("deepequal", SBool)}, true
 	case "bytes.Equal", "crypto/subtle.ConstantTimeCompare", "crypto/hmac.Equal":
 		eq := Eq(sc(0), sc(1))
 		if name == "crypto/subtle.ConstantTimeCompare" {
